@@ -169,10 +169,30 @@ def _src_to_obj(s, work, counter, as_file):
 
 
 def build(forest, work, rng):
-    """Write the forest as files and return (Config kwargs, context object given by the caller)."""
+    """Write the forest as files and return (root config path, context object given by the caller).
+
+    Realisation varies at random (seeded): JSON / YAML, declaration order, and P1 + P2 as the parts of ONE
+    multi-config file (`#part` references, `main_part`) instead of two files - all of which leave the resolution
+    unchanged."""
+    import yaml
+
     files = {'R': dict(tasks=forest['rootTasks'], excl=[], vals={}, uses=forest['rootUses']), 'P1': forest['p1'],
              'P2': forest['p2']}
     ext = {f: ('json' if rng.random() < 0.6 else 'yaml') for f in files}
+    multi = rng.random() < 0.35
+    pm = work / f'PM.{ext["P1"]}'
+
+    def ref(target, inside=None):
+        """how a config refers to file `target`"""
+        if multi and target in ('P1', 'P2'):
+            if inside in ('P1', 'P2'):
+                return f'#{target.lower()}'
+            if target == 'P1' and rng.random() < 0.5:
+                return str(pm)               # the part marked main_part
+            return f'{pm}#{target.lower()}'
+        return str(work / f'{target}.{ext[target]}')
+
+    docs = {}
     for name, f in files.items():
         tasks = [f'{MODULE}.{CLSNAME[c]}' for c in f['tasks']]
         rng.shuffle(tasks)
@@ -181,18 +201,23 @@ def build(forest, work, rng):
         if f['excl']:
             items.append(('excluded_tasks', [f'{MODULE}.{CLSNAME[c]}' for c in f['excl']]))
         if f['uses']:
-            items.append(('uses', [f"{work / (u['f'] + '.' + ext[u['f']])}" + (f" as {u['ns']}" if u['ns'] else '')
-                                   for u in f['uses']]))
+            items.append(('uses', [ref(u['f'], inside=name) + (f" as {u['ns']}" if u['ns'] else '') for u in f['uses']]))
         items += list(data.items())
         rng.shuffle(items)
-        doc = dict(items)
-        p = work / f'{name}.{ext[name]}'
-        if ext[name] == 'json':
+        docs[name] = dict(items)
+
+    def write(p, doc):
+        if str(p).endswith('json'):
             p.write_text(json.dumps(doc))
         else:
-            import yaml
-
             p.write_text(yaml.safe_dump(doc, sort_keys=False))
+
+    if multi:
+        write(pm, {'configs': {'p1': dict(docs['P1'], main_part=True), 'p2': docs['P2']}})
+        write(work / f'R.{ext["R"]}', docs['R'])
+    else:
+        for name, doc in docs.items():
+            write(work / f'{name}.{ext[name]}', doc)
     counter = [0]
     srcs = forest['ctx']
     if not srcs:
